@@ -112,3 +112,78 @@ def census(arch):
     return out
 
 NUMRE = re.compile(r"\$[0-9a-fA-F]+|(?<![\w$])\d+\b")
+
+# ---------------------------------------------------------------- the full pipeline model (pump, includes)
+def run_full(harness, model, cases, syms=False):
+    """cases: list of dict(arch, files {abs path: str|bytes}, cwd, root, paths [abs]).
+    Returns (impl [AsmResult], model [raw line or 'LEXERR'/'NEEDLEX'], impl case lines)."""
+    opts = "syms" if syms else ""
+    icases = [asm_case(c["arch"], files=c["files"], cwd=c.get("cwd", "/w"), root=c.get("root", "main.asm"),
+                       paths=c.get("paths", ()), opts=opts) for c in cases]
+    impl = [AsmResult(r) for r in run_cases(harness, icases)]
+    # lex every file with the implementation's lexer
+    lexjobs, where = [], []
+    for ci, c in enumerate(cases):
+        for p, content in c["files"].items():
+            if content is None:
+                continue
+            data = content.encode("utf8") if isinstance(content, str) else content
+            lexjobs.append("lex\t%s\t%s\t" % (c["arch"], data.hex())); where.append((ci, p))
+    lexed = run_cases(harness, lexjobs)
+    toks = {}
+    for (ci, p), l in zip(where, lexed):
+        toks[(ci, p)] = l
+    # the @parse oracle: every string literal that occurs in the files, lexed as source text
+    strjobs, strkeys = [], []
+    for ci, c in enumerate(cases):
+        seen = set()
+        for p in c["files"]:
+            for t in toks.get((ci, p), "").split(" "):
+                t = t.rsplit("@", 1)[0]
+                if t.startswith("S") and t not in seen:
+                    seen.add(t)
+                    strjobs.append("lex\t%s\t%s\t" % (c["arch"], t[1:])); strkeys.append((ci, t[1:]))
+    strlex = run_cases(harness, strjobs) if strjobs else []
+    lextab = {}
+    for (ci, h), l in zip(strkeys, strlex):
+        if not re.search(r"(^| )E[0-9a-f]*@", l):
+            lextab.setdefault(ci, []).append((h, l))
+    mlines, skip = [], []
+    for ci, c in enumerate(cases):
+        fields = ["mfull", c["arch"], c.get("cwd", "/w"), c.get("root", "main.asm"), "|".join(c.get("paths", ())), opts]
+        lt = lextab.get(ci, [])
+        fields.append(str(len(lt)))
+        for h, l in lt:
+            fields += [h, l]
+        fl = [(p, content) for p, content in c["files"].items() if content is not None]
+        fields.append(str(len(fl)))
+        bad = False
+        for p, content in fl:
+            data = content.encode("utf8") if isinstance(content, str) else content
+            l = toks[(ci, p)]
+            if re.search(r"(^| )E[0-9a-f]*@", l):
+                l = "!"
+            fields += [p, l, data.hex()]
+        mlines.append("\t".join(fields))
+    mres = run_cases(model, mlines)
+    return impl, mres, icases
+
+def k_check_full(ck, cases, impl, mod, icases, syms=False, label="Full.run_full vs Assembler::assemble + Module::link", limit=2):
+    bad = 0
+    unmodelled = 0
+    for c, a, m, ic in zip(cases, impl, mod, icases):
+        if m.startswith(("NEEDLEX", "DRIVERERR")) or m == "FUEL":
+            unmodelled += 1
+            continue
+        mc = model_canon(m)
+        if mc != a.canon() or (syms and a.ok and model_syms(m) != impl_syms(a)):
+            # a file the lexer rejects is outside the token-level model unless both sides fail
+            bad += 1
+            if bad <= limit:
+                ck.violation("correspondence: model %s, implementation %s on %s files %r" % (
+                    mc[:80], a.canon()[:80] + ((" " + (a.msg or "").replace("\n", " ")[-80:]) if not a.ok else ""), c["arch"],
+                    {p: (v if isinstance(v, str) else "<%d bytes>" % len(v)) for p, v in c["files"].items() if v is not None}),
+                    {"correspondence": label, "arch": c["arch"], "files": {p: (v if isinstance(v, str) else v.hex()) for p, v in c["files"].items() if v is not None},
+                     "harness_case": ic, "model": m[:300], "implementation": a.raw[:300]}, no_input=True)
+    ck.extra["unmodelled_cases"] = ck.extra.get("unmodelled_cases", 0) + unmodelled
+    return bad
